@@ -250,7 +250,16 @@ func takeView(s *chainSUT, withDetail bool) view {
 	v.TipState = sha256.Sum256(gen.StateBytes(ts))
 
 	hIdx, hBlk, hSt, hExp := sha256.New(), sha256.New(), sha256.New(), sha256.New()
-	for h := uint64(0); ; h++ {
+	// a store initialised at a checkpoint has no index below it
+	base := uint64(0)
+	if _, ok := s.store.BestIndex(0); !ok {
+		for base = 1; base <= v.Tip.Height; base++ {
+			if _, ok := s.store.BestIndex(base); ok {
+				break
+			}
+		}
+	}
+	for h := base; ; h++ {
 		idx, ok := s.store.BestIndex(h)
 		if !ok {
 			break
